@@ -6,55 +6,7 @@
 // body is written from the property statement: result == integer spec in the documented
 // direction, failure exactly on the stated set.
 // =================================================================================================
-verus! {
-
-// ASSUMED std contract (vstd has none): u128::div_ceil is ceiling division, panics on zero divisor.
-pub assume_specification [u128::div_ceil] (a: u128, b: u128) -> (r: u128)
-    requires b != 0
-    ensures r == (a as int + b as int - 1) / (b as int);
-
-// ---- leaf: impl MulDiv for u64 (via u128 intermediate) --------------------------------------------
-pub trait MulDivLeaf: Sized {
-    spec fn val(&self) -> int;
-    spec fn tmax() -> int;
-    fn checked_mul_div(&self, numerator: &Self, denominator: &Self) -> (r: Option<Self>)
-        ensures
-            denominator.val() == 0 ==> r.is_none(),
-            denominator.val() != 0 && mul_div_floor(self.val(), numerator.val(), denominator.val()) > Self::tmax() ==> r.is_none(),
-            denominator.val() != 0 && mul_div_floor(self.val(), numerator.val(), denominator.val()) <= Self::tmax()
-                ==> r.is_some() && r.unwrap().val() == mul_div_floor(self.val(), numerator.val(), denominator.val());
-    fn checked_mul_div_ceil(&self, numerator: &Self, denominator: &Self) -> (r: Option<Self>)
-        ensures
-            denominator.val() == 0 ==> r.is_none(),
-            denominator.val() != 0 && mul_div_ceil(self.val(), numerator.val(), denominator.val()) > Self::tmax() ==> r.is_none(),
-            denominator.val() != 0 && mul_div_ceil(self.val(), numerator.val(), denominator.val()) <= Self::tmax()
-                ==> r.is_some() && r.unwrap().val() == mul_div_ceil(self.val(), numerator.val(), denominator.val());
-}
-
-impl MulDivLeaf for u64 {
-    open spec fn val(&self) -> int { *self as int }
-    open spec fn tmax() -> int { u64::MAX as int }
-
-//@unit C01.u64.checked_mul_div
-//@ file crates/model/src/num.rs
-//@ within impl MulDiv for u64
-//@ fn checked_mul_div
-//@ sig fn checked_mul_div(&self, numerator: &Self, denominator: &Self) -> Option<Self>
-//@ top :: proof { lemma_mul_upper_bound(*self as int, u64::MAX as int, *numerator as int, u64::MAX as int); lemma_mul_nonnegative(*self as int, *numerator as int); }
-    fn checked_mul_div(&self, numerator: &Self, denominator: &Self) -> (r: Option<Self>)
-//@body
-
-//@unit C01.u64.checked_mul_div_ceil
-//@ file crates/model/src/num.rs
-//@ within impl MulDiv for u64
-//@ fn checked_mul_div_ceil
-//@ sig fn checked_mul_div_ceil(&self, numerator: &Self, denominator: &Self) -> Option<Self>
-//@ top :: proof { lemma_mul_upper_bound(*self as int, u64::MAX as int, *numerator as int, u64::MAX as int); lemma_mul_nonnegative(*self as int, *numerator as int); }
-    fn checked_mul_div_ceil(&self, numerator: &Self, denominator: &Self) -> (r: Option<Self>)
-//@body
-}
-
-} // verus!
+//@include inc/leaf_u64.rs
 //@include inc/num_common.rs
 //@include inc/fixed.rs
 //@include inc/utils_common.rs
